@@ -18,6 +18,8 @@ class SchedProp(DiffProp):
     # deviation bound); the per-program execution cap still applies
     full_tree = {"quick": 32, "thorough": 256}
     _tier = "quick"
+    # (symptom, engine kind) pairs identified by their raise site alone
+    site_keyed = ()
 
     def run_default(self, prog):
         out, ch = engines.run_with_engine(program_text(prog), "counting")
@@ -160,7 +162,8 @@ class SchedProp(DiffProp):
         s, detail, ref, dflt, out = self.check_sched(small, kind, sched)
         case = {"program": program_text(small), "ast": small, "engine": kind, "schedule": sched}
         extra = None
-        if sym.startswith("crash:"):
+        if sym.startswith("crash:") or (sym, kind) in self.site_keyed:
+            # one raise site = one finding (the example program and schedule travel in `extra`)
             case, extra = {"site": sym, "engine": kind}, case
         acc.violation(sym, case, extra=extra,
                       expected={"kind": ref["kind"], "P(q|e)": ref["cond"], "default": dflt}, observed=out,
